@@ -27,11 +27,13 @@ func gen(t *rapid.T) txm.Case { return txm.Gen(t, profile) }
 
 func TestCheck(t *testing.T) {
 	s := &pbt.Suite{ID: "C03", Level: "exploration",
-		Rule: "rapid-generated histories (5..60 steps) interleaving up to 4 open transactions (begin update/read-only, Get, Set with optional expiry, Delete, iterator scripts, Commit, Discard) over <=5 keys with DetectConflicts=true, with maintenance steps (flush, compaction, value-log rewrite) in between; one goroutine drives all transactions so commit order = order of successful Commit returns. Oracle: MVCC model (list of committed write sets); every Get/iterator result must equal model@begin ⊕ own pending writes, also re-read after every maintenance step (repeatable read); Commit must return ErrConflict when a key the transaction read from the database (Get hit or miss, iterator yield, seek target) was written by a transaction that committed after its snapshot — which is exactly the condition under which the serial replay in commit order would not reproduce its reads. Spurious conflicts are allowed and counted. Non-trivial = history with at least one required conflict that was reported and at least one successful commit that overlapped another commit; distinct by case content.",
+		Rule: "rapid-generated histories (5..60 steps) interleaving up to 4 open transactions (begin update/read-only, Get, Set with optional expiry, Delete, iterator scripts, Commit, Discard) over <=5 keys with DetectConflicts=true, with maintenance steps (flush, compaction, value-log rewrite) in between; one goroutine drives all transactions so commit order = order of successful Commit returns. Oracle: MVCC model (list of committed write sets); every Get/iterator result must equal model@begin ⊕ own pending writes, also re-read after every maintenance step (repeatable read); Commit must return ErrConflict when a key the transaction read from the database (Get hit or miss, iterator yield, seek target) was written by a transaction that committed after its snapshot — which is exactly the condition under which the serial replay in commit order would not reproduce its reads. Spurious conflicts are allowed and counted. Second spec (rmw): 2-4 workers run read-modify-write transactions on 1-2 counters, read-only transactions and unrelated writes under the cooperative scheduler, parked at the engine's yield points inside Begin (orc.readTs.*) and Commit (orc.commitTs.afterAlloc, txn.commit.beforeSend, orc.doneCommit); the final counter must equal the sum of the deltas of the commits that returned nil. Non-trivial = history with at least one required conflict that was reported and at least one successful commit that overlapped another commit; distinct by case content.",
 		Assumptions: []string{"single driver goroutine: thread interleavings of begin/commit are the subject of C05",
 			"range phantoms (a key not yielded because it did not exist) are outside the stated rule and not part of the read set",
 			"while C32-atmark is open, transactions that begin at or below the read watermark are exempt from the must-conflict rule (counted as excluded)"},
 	}
 	pbt.Add(s, &pbt.Spec[txm.Case]{Name: "history", Gen: gen, Run: txm.Run, Quick: 400, Thorough: 30000, Shards: 16})
+	// read-modify-write transactions preempted inside Begin/Commit by a harness-owned schedule (rmw_test.go)
+	pbt.Add(s, &pbt.Spec[rmwCase]{Name: "rmw", Gen: genRMW, Run: runRMW, Quick: 1500, Thorough: 60000, Shards: 8})
 	s.Main(t)
 }
